@@ -464,6 +464,19 @@ class FV:
                     return self.alias_root(dn.ast.value, d, depth + 1)
         return expr
 
+    def alias_chain(self, expr: ast.AST, at: int, depth: int = 0) -> List[str]:
+        """All names on the chain of plain name-to-name copies from `expr` down to its root."""
+        out: List[str] = []
+        if isinstance(expr, ast.Name) and depth < 8:
+            out.append(expr.id)
+            defs = self.cfg.reaching()[at].get(expr.id, frozenset())
+            if len(defs) == 1:
+                d = next(iter(defs))
+                dn = self.cfg.nodes[d]
+                if dn.kind == "stmt" and isinstance(dn.ast, ast.Assign) and len(dn.ast.targets) == 1 and isinstance(dn.ast.targets[0], ast.Name) and isinstance(dn.ast.value, ast.Name):
+                    out += self.alias_chain(dn.ast.value, d, depth + 1)
+        return out
+
     # ------------------------------------------------------------------ facts
     def facts_at(self, node: int) -> List[Tuple[ast.AST, bool, int]]:
         return self.cfg.facts_at(node)
